@@ -140,7 +140,8 @@ impl<'r, R: Read> Block<'r, R> {
 
     /// Try to read a data block, also performing schema resolution for the objects contained in
     /// the block. The objects are stored in an internal buffer to the `Reader`.
-    fn read_block_next(&mut self) -> AvroResult<()> {
+    /// Returns `Ok(false)` if the stream ended cleanly at a block boundary.
+    fn read_block_next(&mut self) -> AvroResult<bool> {
         assert!(self.is_empty(), "Expected self to be empty!");
         // The stream may only end cleanly at a block boundary, i.e. before the first byte of the
         // object count. Running out of bytes anywhere after that is a truncated file.
@@ -161,7 +162,7 @@ impl<'r, R: Read> Block<'r, R> {
         }
         if first_len == 0 {
             // to not return any error in case we only finished to read cleanly from the stream
-            return Ok(());
+            return Ok(false);
         }
         match util::read_usize(&mut first.as_slice().chain(&mut self.reader))
             .map_err(Error::into_details)
@@ -185,7 +186,8 @@ impl<'r, R: Read> Block<'r, R> {
                 // and replace `buf` with the new one, instead of reusing the same buffer.
                 // We can address this by using some "limited read" type to decode directly
                 // into the buffer. But this is fine, for now.
-                self.codec.decompress(&mut self.buf)
+                self.codec.decompress(&mut self.buf)?;
+                Ok(true)
             }
             Err(e) => Err(Error::new(e)),
         }
@@ -200,9 +202,9 @@ impl<'r, R: Read> Block<'r, R> {
     }
 
     pub(super) fn read_next(&mut self, read_schema: Option<&Schema>) -> AvroResult<Option<Value>> {
-        if self.is_empty() {
-            self.read_block_next()?;
-            if self.is_empty() {
+        // A block may legitimately contain zero objects; skip it instead of treating it as the end.
+        while self.is_empty() {
+            if !self.read_block_next()? {
                 return Ok(None);
             }
         }
@@ -234,9 +236,9 @@ impl<'r, R: Read> Block<'r, R> {
         &mut self,
         reader_schema: Option<&Schema>,
     ) -> AvroResult<Option<T>> {
-        if self.is_empty() {
-            self.read_block_next()?;
-            if self.is_empty() {
+        // A block may legitimately contain zero objects; skip it instead of treating it as the end.
+        while self.is_empty() {
+            if !self.read_block_next()? {
                 return Ok(None);
             }
         }
